@@ -23,7 +23,7 @@ fn main() {
     let cap: usize = std::env::var("NFV_LIVE_CAP_MB")
         .ok()
         .and_then(|s| s.parse().ok())
-        .unwrap_or(4096);
+        .unwrap_or(2048);
     nfv::alloc::set_live_cap(cap << 20);
     match args.get(1).map(|s| s.as_str()) {
         Some("exec") => {
